@@ -134,6 +134,10 @@ def build():
         canaries=[lambda ex, env: env["result"].n == 1]))
 
     # the frame expression: 00 | le24(len(payload)) | payload, lossless for every payload the loop can produce
+    frame_contract = Contract("iwafile:IWACompressedChunk.to_buffer", label="frame",
+                              search=lambda p_, c_: {"custom": "search_chunking", "native_module": plan.native_module})
+    ctx.contracts[frame_contract.key] = frame_contract
+
     def frame_obligations(plan_):
         f = extract.find_function("iwafile:IWACompressedChunk.to_buffer")
         elt = None
@@ -149,15 +153,14 @@ def build():
         lo, hi = z3.Int(fresh_name("flo")), z3.Int(fresh_name("fhi"))
         L = CLEN(lo, hi)
         b = [(L / 256 ** k) % 256 for k in range(3)]
-        c = Contract("iwafile:IWACompressedChunk.to_buffer", label="frame",
-                     search=lambda p_, c_: {"custom": "search_chunking", "native_module": plan.native_module})
+        c = frame_contract
         c.finfo = f
-        ctx.contracts[c.key] = c
         ob = Obligation("frame/3-byte-length-is-lossless (len(payload) < 2**24 from the snappy bound, pieces <= 64 KiB)",
                         [0 <= lo, lo <= hi, hi - lo <= CHUNK, snappy_bound(lo, hi)],
                         z3.And(L < 2 ** 24, b[0] + 256 * b[1] + 65536 * b[2] == L), "codec", elt.lineno, {"inputs": {}})
         ob.fn, ob.contract = c.key, c
         return [ob]
+    frame_obligations.contract = frame_contract
     plan.extra_obligations.append(frame_obligations)
 
     # ------------------------------------------------------------------ IWACompressedChunk._decompress_all
